@@ -2,6 +2,7 @@
 mod core;
 mod big;
 mod c01;
+mod c03;
 mod c04;
 mod crash;
 mod c05;
@@ -13,6 +14,7 @@ mod c10;
 mod c11;
 mod c12;
 mod c13;
+mod refint;
 mod reg;
 mod c14;
 mod c15;
@@ -36,6 +38,7 @@ fn main() {
     }
     let code = match argv[1].to_ascii_lowercase().as_str() {
         "c01" => c01::main(args),
+        "c03" => c03::main(args),
         "c04" => c04::main(args),
         "c05" => c05::main(args),
         "c07" => c07::main(args),
